@@ -787,3 +787,23 @@ func blockReaches(from, to *ssa.BasicBlock) bool {
 	}
 	return false
 }
+
+// withLiterals: f and the function literals written inside it (recursively) — the unit a rule about "what f does"
+// looks at, so that a loop body moved into a callback literal is still part of f.
+func withLiterals(f *ssa.Function) []*ssa.Function {
+	if f == nil {
+		return nil
+	}
+	out := []*ssa.Function{f}
+	for _, l := range f.AnonFuncs {
+		out = append(out, withLiterals(l)...)
+	}
+	return out
+}
+
+// instrsWithLiterals visits the instructions of f and of its literals.
+func instrsWithLiterals(f *ssa.Function, fn func(ssa.Instruction)) {
+	for _, g := range withLiterals(f) {
+		an.Instrs(g, fn)
+	}
+}
